@@ -540,7 +540,20 @@ def unique_sym_double_rounding(case, what=None):
     return n == _double_rounding_count(case)
 
 
-PREDICATES = {"unique_sym_double_rounding": unique_sym_double_rounding, "round_error_grid": round_error_grid, "angle_several_others": angle_several_others}
+def unique_sym_double_rounding_model(case, what=None):
+    """the same finding seen through the correspondence site `symmetrise_model` (integer uvw input): hexagonal basis, only the
+    message about too many kept vectors, and exactly the count the double rounding predicts"""
+    what = what or ""
+    if case.get("basis") != "hex" or "unique(use_symmetry=True) keeps " not in what or "uvw" not in case:
+        return False
+    n = int(what.split("unique(use_symmetry=True) keeps ")[1].split()[0])
+    c2 = {"k": case["k"], "basis": case["basis"], "fmt": "uvw", "shape": [len(case["uvw"])],
+          "coords": [[float(x) for x in v] for v in case["uvw"]]}
+    return n > 0 and n == _double_rounding_count(c2)
+
+
+PREDICATES = {"unique_sym_double_rounding_model": unique_sym_double_rounding_model,
+              "unique_sym_double_rounding": unique_sym_double_rounding, "round_error_grid": round_error_grid, "angle_several_others": angle_several_others}
 
 
 def vectors(rng, G, n):
